@@ -244,3 +244,25 @@ def run_replay(path):
         return 1
     print('replay: property %s holds on this case' % rec['property'])
     return 0
+
+
+# ---------------------------------------------------------------------------------------------
+# watchdog for code under test that may not terminate (used by the checks that run the solver on hostile input)
+
+class WorkBudgetExceeded(BaseException):
+    """Raised inside the code under test when a case exceeds its wall-clock budget (BaseException on purpose:
+    the library's own 'except Exception' handlers must not swallow it)."""
+
+
+def with_deadline(seconds, fn, *args, **kw):
+    import signal
+
+    def handler(signum, frame):
+        raise WorkBudgetExceeded()
+    old = signal.signal(signal.SIGALRM, handler)
+    signal.setitimer(signal.ITIMER_REAL, seconds)
+    try:
+        return fn(*args, **kw)
+    finally:
+        signal.setitimer(signal.ITIMER_REAL, 0)
+        signal.signal(signal.SIGALRM, old)
